@@ -207,6 +207,60 @@ theorem weak_rejected_if_checked (c : BackendCfg) (hc : c.pkRejectsWeak = true) 
     · rfl
     · simp [hc, hw, Res.isOk]
 
+/-! ### v1 (RSA) keys: decode ∘ encode is idempotent under the DER codec law -/
+
+/-- the DER codec law for the two RSA containers (`der` / `spki` / `pkcs1` are dependencies: the law is a hypothesis; the
+    executable codec of the model is validated against the library on every run by the `key.dec` / `o.key` stream) -/
+structure DerLaws : Prop where
+  spki : ∀ n e, Der.parseSpkiRsa (Der.encodeSpkiRsa n e) = some (n, e)
+  pkcs1 : ∀ k : Der.RsaPriv, Der.parsePkcs1 (Der.encodePkcs1 k) = some k
+
+/-- what the v1 public-key decoder returns is the canonical SPKI DER of a checked (n, e) with the prescribed modulus size,
+    whatever container (DER or PEM) the key came in -/
+theorem rsaPubDecode_ok (bits : Nat) (raw key : Bytes) (h : rsaPubDecode bits raw = .ok key) :
+    ∃ n e, key = Der.encodeSpkiRsa n e ∧ rsaPublicOk n e = true ∧ bitLen n = bits := by
+  simp only [rsaPubDecode] at h
+  split at h
+  · cases h
+  · rename_i n e _
+    split at h
+    · cases h
+    · split at h
+      · cases h
+      · injection h with h
+        exact ⟨n, e, h.symm, by simp_all, by simp_all⟩
+
+/-- v1 public keys survive serialisation: decoding the re-encoded key gives the same key (PEM / DER inputs are normalised once) -/
+theorem rsa_pub_decode_idempotent (L : DerLaws) (bits : Nat) (raw key : Bytes)
+    (h : rsaPubDecode bits raw = .ok key) : rsaPubDecode bits key = .ok key := by
+  obtain ⟨n, e, rfl, hok, hb⟩ := rsaPubDecode_ok bits raw key h
+  simp [rsaPubDecode, L.spki n e, hok, hb]
+
+theorem rsaPrivDecode_ok (bits : Nat) (raw key : Bytes) (h : rsaPrivDecode bits raw = .ok key) :
+    ∃ k, key = Der.encodePkcs1 k ∧ rsaPrivValid k = true ∧ bitLen k.n = bits := by
+  simp only [rsaPrivDecode] at h
+  split at h
+  · cases h
+  · rename_i k _
+    split at h
+    · cases h
+    · split at h
+      · cases h
+      · injection h with h
+        exact ⟨k, h.symm, by simp_all, by simp_all⟩
+
+/-- v1 secret keys survive serialisation -/
+theorem rsa_priv_decode_idempotent (L : DerLaws) (bits : Nat) (raw key : Bytes)
+    (h : rsaPrivDecode bits raw = .ok key) : rsaPrivDecode bits key = .ok key := by
+  obtain ⟨k, rfl, hok, hb⟩ := rsaPrivDecode_ok bits raw key h
+  simp [rsaPrivDecode, L.pkcs1 k, hok, hb]
+
+/-- a modulus of any other size is rejected (the prescribed sizes are passed by the callers: 2048 for signing keys) -/
+theorem rsa_wrong_modulus_size_rejected (bits : Nat) (raw key : Bytes) (h : rsaPubDecode bits raw = .ok key) :
+    ∃ n e, Der.parseSpkiRsa key = Der.parseSpkiRsa (Der.encodeSpkiRsa n e) ∧ bitLen n = bits := by
+  obtain ⟨n, e, rfl, _, hb⟩ := rsaPubDecode_ok bits raw key h
+  exact ⟨n, e, rfl, hb⟩
+
 /-! non-vacuity -/
 example : (keyDecode .v4 .localK (List.replicate 32 7)).isOk = true := by decide
 example : (keyDecode .v4 .localK (List.replicate 33 7)).isOk = false := by decide
